@@ -26,7 +26,7 @@ ASSUMPTIONS = [
     "scipy tukey and numpy fft are trusted primitives; H(f) of a pole-zero response is evaluated by direct products (no scipy.signal.freqs)",
 ]
 NOT_REACHED = ["odd FFT lengths (fft_settings={'n': None} with odd windows crashes in np.zeros(n/2); outside the statement's quantifier)"]
-BUDGET = {"quick": dict(cases=500, seconds=60, shards=4),
+BUDGET = {"quick": dict(cases=1200, seconds=60, shards=4),
           "thorough": dict(cases=100000, seconds=600, shards=16)}
 REQUIRED = ["mon:parseval", "mon:amplitude-squared-scaling", "mon:welch-average", "mon:diffuse-field-from-psds",
             "mon:smoothed-psd-is-smoothed-raw-psd", "mon:differentiation-analytic", "mon:flat-response-analytic",
